@@ -202,7 +202,7 @@ static Path64 decode_poly(int g, int n, long long idx) { Path64 p; for (int i = 
 static long long ipow(long long b, int e) { long long r = 1; while (e--) r *= b; return r; }
 static std::vector<Aff> pip_embs(int g, long long idx, int nemb) {
   int64_t cm = 2 * (g - 1), L = 1LL << 25;
-  std::vector<Aff> all = {{1, 0, 0}, {1, L - cm, -L}, {L / cm, 0, 0}, {(L / cm) / 2, -L, L - cm * ((L / cm) / 2)}, {3, -L, L - 3 * cm}, {(L / cm) | 1, -((L / cm) | 1) * cm / 2 - 1, -5}};
+  std::vector<Aff> all = {{1, 0, 0}, {1, L - cm, -L}, {L / cm, 0, 0}, {(L / cm) / 2, -L, L - cm * ((L / cm) / 2)}, {3, -L, L - 3 * cm}, {(L / cm) | 1, -((L / cm) | 1) * cm / 2 - 1, -((L / cm) | 1) * cm / 2 + 1}};
   std::vector<Aff> r = {all[0]};
   for (int j = 1; j < nemb; ++j) r.push_back(all[1 + (size_t)((idx + j) % (long long)(all.size() - 1))]);
   return r;
